@@ -398,3 +398,102 @@ def check_C08(tier):
     v.coverage["distinct_nontrivial"] = st
     v.assumptions.append("validity is transcribed from the property statement (BoundsCheck.tla), not from the code")
     return v
+
+
+# ---------------------------------------------------------------------------
+# C06: per-run clause by the spec; population clauses measured on a trace-validated panel
+# ---------------------------------------------------------------------------
+def _c06_panel(tier):
+    import math
+    from . import scenarios as S
+    from .common import seed as _seed
+    out = []
+    for rep in range(1 if tier == "quick" else 2):
+        r = S.rnd(("c06", _seed(), rep))
+        for i in range(60):
+            D = 1 + (i % 5)
+            mn = [round(r.uniform(-4, 4), 4) for _ in range(D)]
+            eig = [1.0] + [round(math.exp(r.uniform(0, math.log(100.0))), 4) for _ in range(D - 1)]
+            if D > 1:
+                eig[-1] = round(r.choice([eig[-1], 100.0]), 4)
+            x0 = [round(r.uniform(-5, 5), 4) for _ in range(D)]
+            out.append({"id": f"q{rep}_{i}", "D": D, "geom": S.box_geom(D, -10, 10, -5, 5, x0=x0),
+                        "target": {"family": "quad", "min": mn, "eig": eig, "rot_seed": r.randrange(10 ** 6)},
+                        "noise": {"mode": "det"}, "cons": None, "options": {},
+                        "seed": r.randrange(10 ** 6), "tags": ["c06", f"D{D}"]})
+    return out
+
+
+def check_C06(tier):
+    import statistics
+    scs = _c06_panel(tier)
+    stats = {}
+
+    def post(v, results):
+        for name, scs_, res in results:
+            gaps, evals_to, acts = [], [], {}
+            for i, sc in enumerate(scs_):
+                summ = res["summaries"][i]
+                if "fval" not in summ:
+                    v.violation("C06.run_completed", site="Result", where=f"{name}/{sc['id']}",
+                                detail={"summary": {k: summ.get(k) for k in ("crash", "frame", "rejected")}})
+                    continue
+                gaps.append(summ["fval"])          # true minimum of the family is 0
+                best = float("inf")
+                n_to = None
+                for k, y in enumerate(summ["ys"], 1):
+                    best = min(best, y)
+                    if best <= 1e-2:
+                        n_to = k
+                        break
+                evals_to.append((n_to if n_to is not None else 10 ** 9) / sc["D"])
+                for e in res["events"][i]:
+                    if e["e"] == "SearchEnd" and e["nev"] >= 1:
+                        key = "search_success" if e["impsuff"] else ("search_incremental" if e["imppos"] else "search_failure")
+                        acts[key] = acts.get(key, 0) + 1
+                    elif e["e"] == "PollEnd":
+                        key = "poll_good" if e["good"] else "poll_refine"
+                        acts[key] = acts.get(key, 0) + 1
+            n = len(gaps)
+            within = sum(1 for g in gaps if g <= 1e-3)
+            med = statistics.median(evals_to) if evals_to else float("inf")
+            stats.update(runs=n, within_1e3=within, frac_within=round(within / max(n, 1), 4),
+                         median_evals_to_1e2_per_D=med, worst_gap=max(gaps) if gaps else None,
+                         outcome_actions=acts)
+            if n < 60:
+                v.violation("C06.panel_size", site="panel", where=name, detail={"runs": n})
+            if within < 0.9 * n:
+                v.violation("C06.population_within_1e-3", site="panel", where=name,
+                            detail={"within": within, "runs": n})
+            if med > 40:
+                v.violation("C06.population_median_evals", site="panel", where=name,
+                            detail={"median_evals_to_1e-2_per_D": med})
+            for need in ("search_success", "search_incremental", "poll_good"):
+                if acts.get(need, 0) == 0:
+                    v.violation("C06.outcome_action_never_exercised:" + need, site="panel", where=name,
+                                detail={"actions": acts})
+        v.coverage["panel_statistics"] = stats
+        v.coverage["explanation"] = (
+            "Per-run clause (result never worse than the mesh-snapped starting point, C06.result_leq_start) decided by TLC on every "
+            "trace of the panel. The population clauses (>= 90% of >= 60 random rotated quadratics within 1e-3; panel median "
+            "evaluations-to-1e-2 <= 40*D) are statistical statements no TLA+ specification decides: they are MEASURED on the same "
+            "runs, every one of which was validated as a behaviour of BadsRunTrace (all C01-C19 run-level clauses), and the panel "
+            "must exercise SearchEnd(success), SearchEnd(incremental) and PollEnd(good). Measured: " + repr(stats))
+    v = run_level_check("C06", tier, [], level="other", design_cfgs=(),
+                        extra_panels=[("c06panel", scs)], post=post,
+                        clause_prefixes=["C06.", "C03.controller_follows_spec", "C09."])
+    return v
+
+
+def check_C11(tier):
+    from . import comp_vartransf
+    v = Verdict("C11", tier, "model_checking")
+    st, cases = comp_vartransf.run(v, tier)
+    v.coverage.update({"states": st, "transitions": cases, "traces_validated_against_impl": cases,
+                       "evaluations": cases, "distinct_nontrivial": v.coverage.get("vartransf_bound_sets", 2),
+                       "samples": v.coverage.get("vartransf_samples", []), "exhaustive": True,
+                       "rule": "every bound quadruple x test point of the integer grid (VarTransf.tla) and of the decade grid "
+                               "1e-12..1e12 (VarTransfDec.tla), alone and inside mixed D=2,3 transformers; random off-grid points "
+                               "and points one ulp / 1e-9 outside the bounds"})
+    v.assumptions.append("numeric accuracy off the grid (round trip < 1e-9 of the box width) is a guard evaluated by the driver, not a TLC decision")
+    return v
